@@ -26,6 +26,14 @@ CLAIMED = {
              'objects with symbolic coefficients f=(t-t0)^m f1, g=(t-t0)^m g1, m<=3, deg<=2: returns f1(t0)/g1(t0), raises only when no limit.',
         note='np.roots is a stub (exact roots, arbitrary order; LAPACK accuracy outside). numpy.trim_zeros replaced by its sequential definition for object arrays. Reals, not doubles. n_choose_k checked by concrete exhaustive evaluation for n<=8.',
         design='3/C19'),
+    'C01': dict(
+        text='The real Path.d runs on Paths of n<=3 (thorough 4) symbolic segments, all 4^n type mixes x all 8 option combinations; '
+             'every coincidence pattern of end/control points (continuity, closure, S/T smoothness) is a fork decided by z3. The string '
+             'goes through the real tokenizer and the real _parse_path; z3 (QF_LRA) shows the parsed path has the same length, classes, '
+             'arc flags and defining points for ALL coordinates of that pattern.  Absolute form without S/T: parsed coordinates are the '
+             'input doubles themselves (no arithmetic), hence exact.',
+        note='Numbers cross format()/float() as placeholder literals (models float(repr(x))==x); Arc._parameterize is a no-op here; relative-form rounding is outside (reals); no zero-length Line; radii > 0.',
+        design='3/C01'),
 }
 
 NOT_YET = 'check not built yet in this round (see DESIGN.md section 3 for the plan)'
